@@ -86,6 +86,41 @@ def run(args):
         ok, key, err = states_close(states, full_states)
         if not ok:
             R.spec_fail(dict(kind="split-final-state-differs"), f"{solver}/{backend}: final state after split {parts} differs in {key} by {err:.3g}", inp, err)
+        # ---- the same composition when parameters AND initial states are supplied at run time (`params=` of trainables, incl. trainable
+        #      initial voltages / gate states, and `param_state=` of data_set): a continuation starts from the handed-over states
+        mod.delete_trainables()
+        nn_ = mod.nodes.shape[0]
+        tr_rows = sorted(rng.choice(nn_, size=int(rng.integers(1, nn_ + 1)), replace=False).tolist())
+        mod.select(nodes=tr_rows).make_trainable("v", verbose=False)
+        gate_key = next((k for ch in mod.channels for k in ch.channel_states), None)
+        if gate_key is not None:
+            has = mod.nodes.index[mod.nodes[gate_key.rsplit("_", 1)[0]].astype(bool)].tolist() if gate_key.rsplit("_", 1)[0] in mod.nodes.columns else []
+            if has:
+                mod.select(nodes=has[:1]).make_trainable(gate_key, verbose=False)
+        mod.select(nodes=[0]).make_trainable("radius", verbose=False)
+        params = mod.get_parameters()
+        params = [{k: (v + rng.uniform(1.0, 4.0) if k == "v" else v * 1.15 if k == "radius" else jnp.clip(v + 0.2, 0.0, 1.0)) for k, v in d.items()} for d in params]
+        pstate = mod.select(nodes=[nn_ - 1]).data_set("length", float(rng.uniform(12.0, 30.0)), None)
+        kwp = dict(kw, params=params, param_state=pstate)
+        fullp, fullp_states = jx.integrate(mod, data_stimuli=view.data_stimulate(jnp.asarray(sig)), return_states=True, **kwp)
+        fullp = np.asarray(fullp)
+        states, cols, off = None, [], 0
+        for k, pz in enumerate(parts):
+            rec, states = jx.integrate(mod, data_stimuli=view.data_stimulate(jnp.asarray(sig[off:off + pz])), return_states=True, all_states=states, **kwp)
+            cols.append(np.asarray(rec) if k == 0 else np.asarray(rec)[:, 1:])
+            off += pz
+            R.evaluations += 1
+        joined = np.concatenate(cols, axis=1)
+        R.count("split-with-trainable-initial-states")
+        if joined.shape != fullp.shape or not np.allclose(joined, fullp, rtol=1e-8, atol=1e-8):
+            R.spec_fail(dict(kind="split-differs", route="params+param_state"), f"{solver}/{backend}: with trainable initial states / run-time parameters the split {parts} differs from the single call by "
+                        f"{np.max(np.abs(joined - fullp)) if joined.shape == fullp.shape else 'shape'}", dict(inp, trainable_v_rows=tr_rows), None)
+        ok, key, err = states_close(states, fullp_states)
+        if not ok:
+            R.spec_fail(dict(kind="split-final-state-differs", route="params+param_state"), f"{solver}/{backend}: final state after split {parts} (run-time parameters) differs in {key} by {err:.3g}", inp, err)
+        if np.allclose(fullp, full, rtol=1e-6, atol=1e-6):
+            R.count("diag:run-time-parameters-had-no-effect")
+        mod.delete_trainables()
         # ---- manual stepping
         mod.to_jax()
         init_fn, step_fn = build_init_and_step_fn(mod, voltage_solver=backend, solver=solver)
